@@ -222,9 +222,13 @@ def get_folding_profile_section(
         str_ += "Could not determine folding profile\n"
     else:
         delta = round(Decimal(window[2]),2)
+        # compare like with like: a float bound such as 9.1 is slightly below
+        # the rounded grid value 9.100 and would drop the end point
+        window_min = round(Decimal(window[0]), 3)
+        window_max = round(Decimal(window[1]), 3)
         for (ph, dg) in profile:
             ph = round(Decimal(ph), 3)
-            if ph >= window[0] and ph <= window[1]:
+            if ph >= window_min and ph <= window_max:
                 # Decimal's remainder takes the sign of ph
                 remainder = (ph % delta + delta) % delta
                 if remainder < 0.05 or delta - remainder < 0.05:
